@@ -197,6 +197,13 @@ def run_config(ctx, case):
     # the same points in another memory layout / container: same Jacobian
     with np.errstate(all="ignore"):
         aj = float(np.nanmax(np.abs(J[np.isfinite(J)]), initial=0.0))
+    if int(case["seed"]) % 3 == 0:
+        with np.errstate(all="ignore"):
+            ay0 = float(np.nanmax(np.abs(y0[np.isfinite(y0)]), initial=0.0))
+        ctx.shapes(f"{name}.jacobian", lambda x_: call(t.jacobian, x_), x, J, case,
+                   rtol=1e-9, atol=1e-12 * aj)
+        ctx.shapes(f"{name}.forward", lambda x_: call(t.forward, x_), x, y0, case,
+                   rtol=1e-9, atol=1e-10 * (ay0 + 1))
     ctx.presentations(f"{name}.jacobian",
                       lambda x_: np.asarray(call(t.jacobian, x_), dtype=float), [x], J,
                       case, np.random.default_rng(digest(x) % 2 ** 32), n=1, rtol=1e-9,
